@@ -120,3 +120,76 @@ theorem mergeAll_Fresh {as : List Adm} {g : Graph} (hw : ∀ a ∈ as, a.WF) (h 
         simp [Deleg.mentions, this]
 
 end FimVerif.Cbm
+
+namespace FimVerif.Cbm
+
+/-! ### unmerge never raises on a combined model built by merges -/
+
+def Deleg.atMostOne : Deleg → Bool
+  | .dict [_] => true
+  | .dict _ => false
+  | _ => true
+
+theorem Deleg.unmerge_atMostOne {d : Deleg} (h : d.atMostOne = true) (gid : String) : ∃ r, d.unmerge gid = .ok r := by
+  cases d with
+  | absent => exact ⟨_, rfl⟩
+  | emptied => exact ⟨_, rfl⟩
+  | dict l =>
+    match l, h with
+    | [(k, v)], _ =>
+      by_cases hk : k = gid
+      · exact ⟨.emptied, by simp [Deleg.unmerge, hk]⟩
+      · exact ⟨.dict [(k, v)], by simp [Deleg.unmerge, hk]⟩
+
+theorem unmergeNode_ok {n : Node} (hl : n.ldel.atMostOne = true) (hc : n.cdel.atMostOne = true) (gid : String) :
+    ∃ r, unmergeNode gid n = .ok r := by
+  obtain ⟨rl, hl'⟩ := Deleg.unmerge_atMostOne hl gid
+  obtain ⟨rc, hc'⟩ := Deleg.unmerge_atMostOne hc gid
+  exact ⟨({ n with prov := (provUnmerge gid n.prov).1, cdel := rc, ldel := rl }, (provUnmerge gid n.prov).2),
+    by simp [unmergeNode, hl', hc']⟩
+
+theorem unmergeNodes_ok {gid : String} : ∀ (l : List Node), (∀ n ∈ l, ∃ r, unmergeNode gid n = .ok r) →
+    ∃ rs, unmergeNodes gid l = .ok rs
+  | [], _ => ⟨[], rfl⟩
+  | n :: l, h => by
+    obtain ⟨r, hr⟩ := h n (by simp)
+    obtain ⟨rs, hrs⟩ := unmergeNodes_ok l (fun m hm => h m (by simp [hm]))
+    exact ⟨r :: rs, by simp [unmergeNodes, hr, hrs]⟩
+
+theorem mergeAll_atMostOne {as : List Adm} {g : Graph} (hw : ∀ a ∈ as, a.WF) (h : mergeAll Graph.empty as = some g) :
+    ∀ n ∈ g.nodes, n.ldel.atMostOne = true ∧ n.cdel.atMostOne = true := by
+  intro n hn
+  have hwf := mergeAll_WF Graph.empty_WF hw h
+  have ho := mergeAll_obs Graph.empty_WF hw h n.id
+  have hnode := node?_of_mem hwf.nodup hn
+  constructor
+  · have hl : g.ldelOf n.id = n.ldel := by simp [Graph.ldelOf, hnode]
+    cases hd : n.ldel with
+    | absent => rfl
+    | emptied => rfl
+    | dict l =>
+      rw [hd] at hl
+      rcases ho.2.2.1 l hl with h' | ⟨a, _, k, d, _, e2⟩
+      · simp [Graph.ldelOf, Graph.node?, Graph.empty] at h'
+      · subst e2; rfl
+  · have hl : g.cdelOf n.id = n.cdel := by simp [Graph.cdelOf, hnode]
+    cases hd : n.cdel with
+    | absent => rfl
+    | emptied => rfl
+    | dict l =>
+      rw [hd] at hl
+      rcases ho.2.2.2.1 l hl with h' | ⟨a, _, k, d, _, e2⟩
+      · simp [Graph.cdelOf, Graph.node?, Graph.empty] at h'
+      · subst e2; rfl
+
+theorem unmerge_ok_reachable {as : List Adm} {g : Graph} (hw : ∀ a ∈ as, a.WF) (h : mergeAll Graph.empty as = some g)
+    (hne : g.nodes ≠ []) (gid : String) : (unmerge g gid).1 = none := by
+  obtain ⟨rs, hrs⟩ := unmergeNodes_ok (gid := gid) g.nodes (fun n hn =>
+    unmergeNode_ok (mergeAll_atMostOne hw h n hn).1 (mergeAll_atMostOne hw h n hn).2 gid)
+  unfold unmerge
+  have : g.nodes.isEmpty = false := by cases hg : g.nodes with
+    | nil => exact absurd hg hne
+    | cons _ _ => rfl
+  simp [this, hrs]
+
+end FimVerif.Cbm
